@@ -22,7 +22,6 @@ import (
 	"flag"
 	"os"
 	"reflect"
-	"regexp"
 	"runtime/debug"
 	"strconv"
 	"strings"
@@ -109,13 +108,8 @@ func kv(words []string, key string) string {
 
 // ---- error canonicalisation -----------------------------------------------------------------
 
-var (
-	reKind  = regexp.MustCompile(`^ekit: 字段 (\S+) 的 Kind 不匹配, src: (\S+), dst: (\S+)$`)
-	reType  = regexp.MustCompile(`^ekit: 字段 (\S+) 的 Type 不匹配, src: `)
-	reMulti = regexp.MustCompile(`^ekit: 字段 (\S+) 是多级指针$`)
-	reEntry = regexp.MustCompile(`^ekit: copier 入口只支持 Struct 不支持类型 `)
-)
-
+// errTok: the copier's own errors are classified by the white-box hook (templates obtained from the
+// package's own error constructors, sentinels), never by the wording of a message.
 func errTok(err error) string {
 	if err == nil {
 		return "ok"
@@ -123,23 +117,7 @@ func errTok(err error) string {
 	if err == errConvFail {
 		return "err:conv"
 	}
-	msg := err.Error()
-	if m := reKind.FindStringSubmatch(msg); m != nil {
-		return "err:kind:" + m[1] + ":" + m[2] + ":" + m[3]
-	}
-	if m := reType.FindStringSubmatch(msg); m != nil {
-		return "err:typemismatch:" + m[1]
-	}
-	if m := reMulti.FindStringSubmatch(msg); m != nil {
-		return "err:multiptr:" + m[1]
-	}
-	if reEntry.MatchString(msg) {
-		return "err:type"
-	}
-	if msg == "ekit: 转化字段类型不匹配" {
-		return "err:convtype"
-	}
-	return "err:other"
+	return copier.VerifErrClass(err)
 }
 
 // ---- generation -----------------------------------------------------------------------------
